@@ -524,6 +524,19 @@ func (e *Env) call(x *ECall) SVal {
 			e.fail("val() needs a *BigInt")
 		}
 		return iv(e.g.bigVal(e.cur, v.T, v.Ty.Elem))
+	case "wordskept":
+		// the inline words behind a math/big header (if it is one) are what they were before the call
+		need(1)
+		if e.old == nil {
+			e.fail("wordskept needs an old state")
+		}
+		v := e.eval(args[0])
+		bk := e.g.load(e.old, "MathBig.backing", v.T, SInt)
+		var cs []Term
+		for off := int64(1); off <= 2; off++ {
+			cs = append(cs, Eq(e.g.load(e.cur, "cell.uint", Add(bk, IntLit(off)), SInt), e.g.load(e.old, "cell.uint", Add(bk, IntLit(off)), SInt)))
+		}
+		return bv(Or(Eq(bk, IntLit(0)), And(cs...)))
 	case "negzero":
 		// a math/big value that is zero with its sign flag set (only (big.Int).GCD's cofactors can be)
 		need(1)
